@@ -219,6 +219,87 @@ func (c *Ctx) c01Payloads() {
 	c.Sample(map[string]interface{}{"payload sweep": []string{"_x0041_", "_x005F_x0041_", "_x0042_x0041_", " lead", "a\r\nb"}, "strings": len(strs), "floats": len(floats)})
 }
 
+// column attributes of adjacent columns (mergeExpandedCols merges equal neighbours on save):
+// every combination of outline level / width / style / visibility on columns B and C
+func (c *Ctx) c01ColAttrs() {
+	type ca struct{ ol, w, st, hid int }
+	var opts []ca
+	for ol := 0; ol < 3; ol++ {
+		for w := 0; w < 3; w++ {
+			for st := 0; st < 2; st++ {
+				for hid := 0; hid < 2; hid++ {
+					opts = append(opts, ca{ol, w, st, hid})
+				}
+			}
+		}
+	}
+	widths := []float64{0, 20, 30.5}
+	apply := func(f *excelize.File, col string, a ca, styles []int) {
+		if a.ol > 0 {
+			f.SetColOutlineLevel("Sheet1", col, uint8(a.ol))
+		}
+		if a.w > 0 {
+			f.SetColWidth("Sheet1", col, col, widths[a.w])
+		}
+		if a.st > 0 {
+			f.SetColStyle("Sheet1", col, styles[a.st])
+		}
+		if a.hid > 0 {
+			f.SetColVisible("Sheet1", col, false)
+		}
+	}
+	obs := func(f *excelize.File) string {
+		var sb strings.Builder
+		for _, col := range []string{"A", "B", "C", "D", "E"} {
+			w, _ := f.GetColWidth("Sheet1", col)
+			ol, _ := f.GetColOutlineLevel("Sheet1", col)
+			v, _ := f.GetColVisible("Sheet1", col)
+			st, _ := f.GetColStyle("Sheet1", col)
+			fmt.Fprintf(&sb, "%s:w=%v,ol=%d,vis=%v,st=%d ", col, w, ol, v, st)
+		}
+		return sb.String()
+	}
+	n := 0
+	for i, a := range opts {
+		for j, b := range opts {
+			if !c.Thorough() && (i*37+j)%3 != 0 {
+				continue
+			}
+			n++
+			f := excelize.NewFile()
+			styles := registerStyles(f)
+			if (i+j)%2 == 0 {
+				apply(f, "B", a, styles)
+				apply(f, "C", b, styles)
+			} else {
+				apply(f, "C", b, styles)
+				apply(f, "B", a, styles)
+			}
+			if j%5 == 0 {
+				apply(f, "D", a, styles)
+			}
+			o0 := obs(f)
+			g, err := reopen(f)
+			f.Close()
+			desc := map[string]interface{}{"colB": a, "colC": b, "order": (i + j) % 2}
+			c.Count("col-attrs", a != b, fmt.Sprint(a, b))
+			if err != nil {
+				c.Fail("oracle", "C01_roundtrip", desc, "save/open failed: "+err.Error(), "")
+				continue
+			}
+			o1 := obs(g)
+			g.Close()
+			if o0 != o1 {
+				c.Fail("oracle", "C01_col_attrs", desc, fmt.Sprintf("column attributes changed by save+open (B=%+v C=%+v): %s  ->  %s", a, b, o0, o1), "")
+				if c.Failed() && len(c.R.Failures) >= 3 {
+					return
+				}
+			}
+		}
+	}
+	c.R.Dist["col-attr-pairs"] = n
+}
+
 // fixtures shipped with the repository: open, observe, save, open, observe
 func (c *Ctx) c01Fixtures() {
 	for _, fx := range []string{"Book1.xlsx", "SharedStrings.xlsx", "MergeCell.xlsx", "CalcChain.xlsx", "BadWorkbook.xlsx"} {
@@ -261,6 +342,8 @@ func runC01(c *Ctx) {
 	}
 	c.R.Notes = append(c.R.Notes, fmt.Sprintf("histories %.1fs", time.Since(t0).Seconds()))
 	c.compareBatch(cases)
+	c.c01ColAttrs()
+	c.R.Notes = append(c.R.Notes, fmt.Sprintf("+colattrs %.1fs", time.Since(t0).Seconds()))
 	c.c01Payloads()
 	c.R.Notes = append(c.R.Notes, fmt.Sprintf("+payloads %.1fs", time.Since(t0).Seconds()))
 	c.c01Fixtures()
@@ -275,6 +358,7 @@ func replayC01(c *Ctx, f Failure) {
 	}
 	c.compareBatch(cases)
 	if len(hs) == 0 {
+		c.c01ColAttrs()
 		c.c01Payloads()
 		c.c01Fixtures()
 	}
